@@ -1,4 +1,5 @@
 import TFV.Properties.Net
+import TFV.Properties.Src.SoftmaxKernel
 #print axioms TFV.Net.C12_preActGroup
 #print axioms TFV.Net.C12_schedule_sound
 #print axioms TFV.Net.C12_history_independent
@@ -6,3 +7,6 @@ import TFV.Properties.Net
 #print axioms TFV.Net.C12_conn_order
 #print axioms TFV.Net.C12_softmax
 #print axioms TFV.Net.C12_softmax_split_counterexample
+#print axioms TFV.Properties.Src.SoftmaxKernel.C12_src_max_axis
+#print axioms TFV.Properties.Src.SoftmaxKernel.C12_src_softmax_numba
+#print axioms TFV.Properties.Src.SoftmaxKernel.C12_src_softmax_rows
